@@ -149,6 +149,7 @@ func ensureBuilt(race bool) string {
 	if err := run(bbpDir, siminst, bbpDir, filepath.Join(scratch, "bbp"), "."); err != nil {
 		die(2, "instrumenting bytebufferpool: %v", err)
 	}
+	os.WriteFile(filepath.Join(scratch, "bbp", "go.mod"), []byte("module github.com/valyala/bytebufferpool\n\ngo 1.12\n"), 0o644)
 	mod := fmt.Sprintf(`module verif/harness
 
 go 1.25.0
